@@ -126,6 +126,10 @@ def _judge(col, case, spec, m, start, xs, ys):
                 d = abs((math.log(g) - lin[t, k]) if (log and g > 0) else (g - levels[t, k]))
                 col.check(d <= 1e-9 * (1 + abs(lin[t, k])), "data:not_reproduced", lambda: f"smooth_med[{nm}] t={t}: {g!r} vs data {levels[t, k]!r}")
     # transition variables are estimated in every period
+    if log and any(np.any(np.isinf(p.arr(nm))) or np.any(p.arr(nm) == 0) for nm in names):
+        # exp() of an estimate beyond +-709 in logs (an observation loading of 1e-3 or less on the state): floating-point
+        # range, not a missing estimate
+        return {"labels": ["log_estimate_outside_float_range"], "nontrivial": False}
     for nm in names:
         col.check(bool(np.all(np.isfinite(p.arr(nm)))), "smooth:transition_missing", lambda: f"smooth_med[{nm}] has missing values")
     if col.items:
